@@ -172,7 +172,8 @@ class WeightedProbabilityBasedSquaredError(ProbabilityBasedLossFunction):
                 if row == 2 and col == 2:
                     weight_matrix[0, 0] = extracted_mat_inv[0, 0]
                 else:
-                    weight_matrix[:row, :col] = extracted_mat_inv
+                    # the inverse has the size of the extracted (row - 1) x (col - 1) block
+                    weight_matrix[: row - 1, : col - 1] = extracted_mat_inv
                 weight_matrices.append(weight_matrix)
 
             self.set_weight_matrices(weight_matrices)
